@@ -22,8 +22,9 @@ def cases(tier, seed):
     # (a) multi-key combination
     shapes = [(2, 2), (1, 3), (3, 2), (2, 1)] if tier == "quick" else [s for k in (2, 3) for s in itertools.product((1, 2, 3), repeat=k)]
     for sh in shapes:
-        out.append({"kind": "combine", "N": N if len(sh) == 2 else min(N, 5), "shape": list(sh),
-                    "name": f"factorize_2d/_combine_factorizations: {len(sh)} keys with {sh} labels, N={N if len(sh) == 2 else min(N, 5)}", "witness": sh == (2, 2)})
+        Nc = (N if tier == "quick" else 5) if len(sh) == 2 else 4
+        out.append({"kind": "combine", "N": Nc, "shape": list(sh),
+                    "name": f"factorize_2d/_combine_factorizations: {len(sh)} keys with {sh} labels, N={Nc}", "witness": sh == (2, 2)})
     # (b) monotonic fast path
     # datetime64 keys reach the kernel as datetime64 (NaT compares false both ways in numba, exactly like NaN): float64 stands for them
     for dt in ("float64", "int64"):
